@@ -1625,3 +1625,81 @@ Proof.
       * rewrite (lvs_spec_heap_indep _ _ _ _ rg1 (rget s1)). exact Hrep2.
       * intros r Hr. rewrite Hr2 by exact Hr. apply lvs_spec_pointwise. now apply Hr1.
 Qed.
+
+(* `switch`/`invoke` loading 1..3 values from a block that has other references (header <> 0):
+   the header is decremented, the fields are loaded and every loaded pointer gains a reference *)
+Theorem rv_load_one_block_share_refines : forall im i to_load existing lc cs lc' s h b,
+  to_load <> [] -> (List.length to_load <= 3)%nat ->
+  r_load to_load existing lc = Ok (cs, lc') ->
+  placed im i cs ->
+  represents s h ->
+  rget s (pos_reg Fst (List.length existing)) = Some b -> valid_block b ->
+  words h b <> 0 ->
+  let h' := {| words := upd (words h) b (wrap (words h b - 1)); hp := hp h; fp := fp h |} in
+  lvs_ok (rev to_load) b 3 h' ->
+  exists s',
+    star im i s (padd i (List.length cs)) s' /\
+    represents s' (snd (lvs_spec (rev to_load) (List.length existing) b 3 (rget s) h')) /\
+    (forall r, r <> TEMP -> rget s' r = fst (lvs_spec (rev to_load) (List.length existing) b 3 (rget s) h') r).
+Proof.
+  intros im i to_load existing lc cs lc' s h b Hne Hlen Hld Hpl (Hw & Hhp & Hfp) Hmb Hvb Hrc h' Hok.
+  destruct (r_load_one_block _ _ _ _ _ Hne Hlen Hld) as (thenv & elsev & lc2 & Hthen & Helse & ->).
+  set (mb := pos_reg Fst (List.length existing)) in *.
+  pose proof (pos_reg_reserved Fst (List.length existing)) as Hmb4. fold mb in Hmb4.
+  assert (Hb0 : valid_addr (b + 0)) by (replace (b + 0) with (b + 8 * 0) by lia; apply Hvb; lia).
+  assert (Hbpos : 0 < b) by (apply valid_pos; now rewrite Z.add_0_r in Hb0).
+  assert (HmT : TEMP <> mb) by (intro Heq; rewrite <- Heq in Hmb4; vm_compute in Hmb4; congruence).
+  assert (HmH : HEAP <> mb) by (intro Heq; rewrite <- Heq in Hmb4; vm_compute in Hmb4; congruence).
+  assert (HmF : FREE <> mb) by (intro Heq; rewrite <- Heq in Hmb4; vm_compute in Hmb4; congruence).
+  set (P := [LW TEMP mb 0; BEQ TEMP ZERO (lab (lc2 + 1)); ADDI TEMP TEMP (-1); SW TEMP mb 0]).
+  set (T := LAB (lab (lc2 + 1)) :: release_block mb ++ thenv).
+  assert (Ecs : [LW TEMP mb 0; BEQ TEMP ZERO (lab (lc2 + 1))] ++ ([ADDI TEMP TEMP (-1); SW TEMP mb 0] ++ elsev)
+                ++ [JAL ZERO (lab (lc2 + 2)); LAB (lab (lc2 + 1))] ++ (release_block mb ++ thenv) ++ [LAB (lab (lc2 + 2))]
+                = P ++ elsev ++ [JAL ZERO (lab (lc2 + 2))] ++ T ++ [LAB (lab (lc2 + 2))]).
+  { unfold P, T. cbn [app]. rewrite <- !app_assoc. reflexivity. }
+  rewrite Ecs in *. clear Ecs.
+  assert (Hlelse : find_label (labels im) (lab (lc2 + 2)) =
+                   Some (padd i (List.length P + (List.length elsev + (1 + List.length T))))).
+  { destruct Hpl as [_ HL]. apply HL.
+    rewrite nth_error_app2 by lia. replace (List.length P + (List.length elsev + (1 + List.length T)) - List.length P)%nat with (List.length elsev + (1 + List.length T))%nat by lia.
+    rewrite nth_error_app2 by lia. replace (List.length elsev + (1 + List.length T) - List.length elsev)%nat with (1 + List.length T)%nat by lia.
+    cbn [app nth_error Nat.add]. rewrite nth_error_app2 by lia. now rewrite Nat.sub_diag. }
+  apply placed_app in Hpl as [[HcP _] Hpl].
+  apply placed_app in Hpl as [Hpe Hpl].
+  apply placed_app in Hpl as [[HcJ _] Hpl].
+  apply placed_app in Hpl as [_ [HcE _]].
+  rewrite <- !padd_add in *.
+  (* header decrement *)
+  assert (H4 : exists s4, star im i s (padd i (List.length P)) s4 /\ represents s4 h' /\
+                          (forall r, r <> TEMP -> rget s4 r = rget s r)).
+  { eexists. split; [|split].
+    - eapply star_step; [apply (one_at_next im i P 0 _ s _ HcP eq_refl); intros a0; eapply step_LW; [exact Hmb | reflexivity | exact Hb0] |].
+      eapply star_step; [apply (one_at_next im i P 1 _ _ _ HcP eq_refl); intros a0; eapply step_BEQ0_not; [regs; reflexivity | rewrite Z.add_0_r, Hw; exact Hrc] |].
+      eapply star_step; [apply (one_at_next im i P 2 _ _ _ HcP eq_refl); intros a0; eapply step_ADDI; [regs; reflexivity | reflexivity] |].
+      eapply star_step; [apply (one_at_next im i P 3 _ _ _ HcP eq_refl); intros a0; eapply step_SW; [regs; exact Hmb | regs; reflexivity | reflexivity | exact Hb0] |].
+      apply star_refl.
+    - unfold h'. rewrite !Z.add_0_r. split; [|split]; cbn [words hp fp].
+      + intros a. rewrite hword_sstore by assumption. rewrite !hword_rset.
+        unfold upd. destruct (a =? b); [now rewrite Hw|apply Hw].
+      + regs. exact Hhp.
+      + regs. exact Hfp.
+    - intros r Hr. regs. reflexivity. }
+  destruct H4 as (s4 & Hs4 & Hrep4 & Hfr4).
+  assert (Hmb4' : rget s4 mb = Some b) by (rewrite Hfr4 by congruence; exact Hmb).
+  destruct (rv_load_values_share im (rev to_load) existing 3 elsev lc lc2 (padd i (List.length P)) s4 h' b Helse
+              ltac:(rewrite rev_length; lia) ltac:(lia) Hpe Hrep4 Hmb4' Hvb Hok) as (s5 & Hs5 & Hrep5 & Hr5).
+  exists s5. split; [|split].
+  - eapply star_trans; [exact Hs4|]. eapply star_trans; [exact Hs5|].
+    rewrite <- padd_add.
+    replace (padd i (List.length P + List.length elsev)) with (padd (padd i (List.length P + List.length elsev)) 0) by reflexivity.
+    eapply star_step; [apply (one_at_jump im _ _ 0 _ _ _ _ HcJ eq_refl); intros a0; eapply step_JAL0; exact Hlelse |].
+    replace (padd i (List.length P + (List.length elsev + (1 + List.length T))))
+      with (padd (padd i (List.length P + (List.length elsev + (List.length [JAL ZERO (lab (lc2 + 2))] + List.length T)))) 0) by reflexivity.
+    eapply star_step; [apply (one_at_next im _ _ 0 _ _ _ HcE eq_refl); intros a0; apply step_LAB |].
+    replace (padd (padd i (List.length P + (List.length elsev + (List.length [JAL ZERO (lab (lc2 + 2))] + List.length T)))) 1)
+      with (padd i (List.length (P ++ elsev ++ [JAL ZERO (lab (lc2 + 2))] ++ T ++ [LAB (lab (lc2 + 2))]))).
+    2:{ rewrite <- padd_add. f_equal. rewrite !app_length. cbn [List.length]. lia. }
+    apply star_refl.
+  - rewrite (lvs_spec_heap_indep _ _ _ _ (rget s) (rget s4)). exact Hrep5.
+  - intros r Hr. rewrite Hr5 by exact Hr. apply lvs_spec_pointwise. now apply Hfr4.
+Qed.
